@@ -148,7 +148,9 @@ class LifterModel(object):
             live_mem = any(b < 0xC0 for b in live)
             if modifs.get(mmx):
                 if live_reg:
-                    rn = {(): afs.reg_mm_base, (0x66,): afs.reg_xmm_base}.get(prefix, 0) + live_reg[-1]
+                    r_ = X.dis_mmx_modes(name, list(prefix), False, digit=True)
+                    adm_ = r_[1] if isinstance(r_, tuple) else afs.u32
+                    rn = {afs.mm: afs.reg_mm_base, afs.xmm: afs.reg_xmm_base}.get(adm_, 0) + live_reg[-1]
                     base.append(('rm=reg%d' % live_reg[-1], [self.REG(rn, S)]))
             else:
                 if not (rmr in dibs) and live_reg:
@@ -174,10 +176,12 @@ class LifterModel(object):
         for tag, margs in base:
             margs = [dict(a) for a in margs]
             swap = modifs.get(sw)
-            if modifs.get(mmx) and name == 'mov#d#' and prefix == (0xF3,):
-                if not swap:
-                    continue        # `raise ValueError('Invalid')` path of _dis (C10)
-                swap = False
+            if modifs.get(mmx) and rmr in dibs and not isinstance(afsk, int):
+                r_ = X.dis_mmx_modes(name, list(prefix), swap)
+                if r_ == 'rejected':
+                    continue        # _dis returns None for this combination
+                if isinstance(r_, tuple):
+                    swap = r_[2]
             if swap:
                 margs.reverse()
             dib_out = []
@@ -240,57 +244,16 @@ class LifterModel(object):
             reg_cat += 0x20
         swap_args = modifs.get(sw)
         if modifs.get(mmx):
-            mm, xmm, u32 = afs.mm, afs.xmm, afs.u32
-            p = list(prefix)
-            n = row.name
-            o, a = opm, adm
-            if '#S#' in n:
-                o, a = u32, xmm
-            elif n in ('#p#extrb', '#p#extrd', '#p#extrw') and swap_args:
-                o, a = xmm, u32
-            elif n in ('#p#insrb', '#p#insrd', '#p#insrw', 'extract##PS#'):
-                o, a = (mm if p == [] else xmm), u32
-            elif n in ('pmovmskb', '#p#extrw'):
-                o, a = u32, (mm if p == [] else xmm)
-            elif '##' in n:
-                o, a = xmm, xmm
-            elif '#ps2pi' in n:
-                if p in ([], [0x66]):
-                    o = mm
-                else:
-                    o = u32
-                a = xmm
-            elif '#pi2ps' in n:
-                o = xmm
-                a = mm if p in ([], [0x66]) else u32
-            elif any(t in n for t in ('#p#', '#w#', '#qa#', '#qu#')):
-                o = mm if p == [] else xmm
-                a = o
-            elif any(t in n for t in ('#s#', '#ps#', '#pd#', '#ups#', '#lps#', '#hps#', '#ps2pd', '#dq2ps', '#pd2dq')):
-                o, a = xmm, xmm
-            elif n == 'movq':
-                o = xmm
-                a = afs.f64 if p in ([], [0x66]) else xmm
-            elif '#q#' in n:
-                if p == []:
-                    o = mm
-                elif p == [0x66]:
-                    o = xmm
-                a = xmm
-            elif '#d#' in n:
-                if p == []:
-                    o, a = mm, u32
-                elif p == [0x66]:
-                    o, a = xmm, u32
-                elif p == [0xF3]:
-                    o, a = xmm, xmm
-            else:
-                raise AnalysisError('mmx row %r matches no operand-mode pattern of _dis' % n)
-            if o == xmm:
+            # derived from the source of x86_mn._dis (register-file selection of MMX/SSE rows)
+            r = X.dis_mmx_modes(row.name, list(prefix), swap_args)
+            if r in ('rejected', 'never'):
+                return
+            o, a, _swap = r
+            if o == afs.xmm:
                 reg_cat = afs.reg_xmm_base
-            elif o == mm:
+            elif o == afs.mm:
                 reg_cat = afs.reg_mm_base
-            elif o == u32:
+            elif o == afs.u32:
                 reg_cat = 0
             else:
                 return      # the NEVER site of _dis (reported by C10)
@@ -327,44 +290,10 @@ class LifterModel(object):
             if modifs.get(sg):
                 mafs[afs.size] = afs.size_seg
             if modr[afs.ad] and modifs.get(mmx):
-                n = row.name
-                p = list(prefix)
-                f32, f64 = afs.f32, afs.f64
-                if n == 'mov#d#':
-                    if p == [0x66]:
-                        modr[afs.size] = f32
-                    elif p == [0xF2]:
-                        continue          # NEVER site of _dis (C10)
-                    elif p == [0xF3]:
-                        modr[afs.size] = f64
-                elif '#ps#' in n or n == 'mov#ups#':
-                    if p == [0xF2]:
-                        modr[afs.size] = f64
-                    elif p == [0xF3]:
-                        modr[afs.size] = f32
-                elif '#s#' in n:
-                    if p == []:
-                        modr[afs.size] = f32
-                    elif p == [0x66]:
-                        modr[afs.size] = f64
-                    else:
-                        continue          # NEVER site of _dis (C10)
-                elif '#ps2pi' in n or '#ps2pd' in n:
-                    if p in ([], [0xF2]):
-                        modr[afs.size] = f64
-                    elif p == [0xF3]:
-                        modr[afs.size] = f32
-                elif '#pi2ps' in n:
-                    if p in ([], [0x66]):
-                        modr[afs.size] = f64
-                    else:
-                        modr[afs.size] = f32
-                elif '#pd2dq' in n:
-                    if p == [0xF3]:
-                        modr[afs.size] = f64
-                elif '#lps#' in n or '#hps#' in n:
-                    if p in ([], [0x66]):
-                        modr[afs.size] = f64
+                sz = X.dis_mmx_memsize(row.name, list(prefix), modr[afs.size])
+                if sz == 'never':
+                    continue          # NEVER site of _dis (C10)
+                modr[afs.size] = sz
             yield tag, mafs, modr
 
     def _special(self, name, modifs, opmode, ops):
